@@ -405,6 +405,11 @@ class Solver:
             # Some of the keys are used by the integrator.
             self._integrator.options = self._options
             self._integrator.reset(hard=True)
+        elif from_setter:
+            # ``solver.options = {...}`` created a new options object:
+            # integrators that keep a reference to the solver's options
+            # (``MCIntegrator``) must be handed the new one.
+            self._integrator.options = self._options
 
     def _argument(self, args):
         """Update the args, for the `rhs` and other operators."""
